@@ -107,22 +107,6 @@ def precompileTokenIn (k : Kind) (g : Nat) (s : Addr) (n : Nat) : List Prim :=
    | .externalOwned => [.mint (.base g) E E n]) ++
   [.send (.base g) E s n]
 
-/-- the precompile account and the evm module account (`handlerOriginToken`) -/
-abbrev precompileAcc : Addr := .ext 2
-abbrev evmMod : Addr := .ext 3
-
-/-- `msg.value` of a precompile call: the EVM moves the value to the precompile address, `handlerOriginToken` hands it
-back to the sender through the evm module account -/
-def valueIn (g : Nat) (s : Addr) (n : Nat) : List Prim :=
-  [.send (.base g) s precompileAcc n, .send (.base g) precompileAcc evmMod n, .send (.base g) evmMod s n]
-
-/-- precompile `increaseBridgeFee`: the fee (a base coin after `handlerERC20Token`) becomes the chain's bridge
-denomination through the erc20 module's `ConvertDenomToTarget` (escrow in `E`); FX is its own bridge denomination -/
-def feeToBridgeDenom (k : Kind) (g c : Nat) (h : Addr) (n : Nat) : List Prim :=
-  match k with
-  | .fx => []
-  | _ => convertDenom k g h n .base (.chain c)
-
 /-! ### x/crosschain/keeper: fee increase, bridge-call refund -/
 
 /-- `AddUnbatchedTxBridgeFee`: the fee is taken in the bridge denomination and locked or burned by
